@@ -183,6 +183,9 @@ func (z *Decimal) Add(x, y *Decimal) *Decimal {
 		z.acc = Exact
 		z.form = zero
 		z.neg = x.neg && y.neg // -0 + -0 == -0
+		if x.neg != y.neg && z.mode == ToNegativeInf {
+			z.neg = true // exact zero sum of opposite signs
+		}
 		return z
 	}
 
@@ -1378,6 +1381,9 @@ func (z *Decimal) Sub(x, y *Decimal) *Decimal {
 		z.acc = Exact
 		z.form = zero
 		z.neg = x.neg && !y.neg // -0 - +0 == -0
+		if x.neg == y.neg && z.mode == ToNegativeInf {
+			z.neg = true // exact zero difference of like signs
+		}
 		return z
 	}
 
